@@ -14,6 +14,32 @@ fn main() {
     let args: Vec<String> = std::env::args().collect();
     match args.get(1).map(|s| s.as_str()) {
         Some("tables") => tables::dump(),
+        // `rqh ops <K> <sparse threshold>`: the operation vector of the encoder's solve (one line)
+        Some("ops") => {
+            let k: u16 = args[2].parse().unwrap();
+            let thr: u32 = args[3].parse().unwrap();
+            let plan = raptorq::SourceBlockEncodingPlan::verif_generate(k, thr).expect("solve failed");
+            println!("{}", e3::ops_str(plan.verif_operations()));
+        }
+        // `rqh opsdec <K> <isis comma list> <sparse threshold>`: operation vector of a decoder-side solve
+        // of the full system for the received internal symbol ids (None -> "none")
+        Some("opsdec") => {
+            use raptorq::verif as rq;
+            let k: u32 = args[2].parse().unwrap();
+            let isis: Vec<u32> = args[3].split(',').map(|x| x.parse().unwrap()).collect();
+            let thr: u32 = args[4].parse().unwrap();
+            let kp = rq::extended_source_block_symbols(k);
+            let rows = (rq::num_ldpc_symbols(k) + rq::num_hdpc_symbols(k)) as usize + isis.len();
+            let d = raptorq::SymbolSlab::with_zeros(rows, 1);
+            let ops = if kp >= thr {
+                let (a, h) = rq::generate_constraint_matrix::<raptorq::SparseBinaryMatrix>(k, &isis);
+                rq::fused_inverse_mul_symbols(a, h, d, k).1
+            } else {
+                let (a, h) = rq::generate_constraint_matrix::<raptorq::DenseBinaryMatrix>(k, &isis);
+                rq::fused_inverse_mul_symbols(a, h, d, k).1
+            };
+            match ops { Some(o) => println!("{}", e3::ops_str(&o)), None => println!("none") }
+        }
         Some("gen") => {
             let engine = args[2].as_str();
             let thorough = args[3] == "thorough";
